@@ -102,8 +102,10 @@ CLAIMS = {
         "running; a repeated pause does not release waiters. The clauses 'forwarded to the targets the service has at that moment' and "
         "'pause never causes a refusal' are FALSE of the code (F2c, F2d: kernel-checked witnesses replayed every run).",
    note=TB + "M4 is an interpreter of schedules; its atomic steps follow the code incl. its known defects. Partial: the theorems are about the model's step functions (local), whole-schedule invariants are carried by kernel-checked witnesses/tests and the correspondence run; probe I/O kinds are abstracted."),
- 'C09': dict(engine='proxy+control', technique='Lean 4 proof (rotation arithmetic, refresh, probe transitions + kernel-checked counter-example) + differential correspondence run under a deterministic scheduler',
+ 'C09': dict(engine='proxy+control', technique='Lean 4 proof (rotation arithmetic, run-level rotation by induction over request sequences, refresh, probe transitions + kernel-checked counter-example) + differential correspondence run under a deterministic scheduler',
    text="Proved: k consecutive claims visit every rotation position exactly once (strict fairness); a claim returns the next rotation member; "
+        "run-level rotation by induction over ANY number of consecutive requests on a stable rotation (C09_run_rotation: the j-th request is "
+        "answered by position (idx+1+j) mod k; C09_run_window_covers: every window of k requests serves every position); "
         "refresh makes the rotation exactly the healthy targets in order; empty rotation claims nothing (503); probe transitions "
         "(fail: healthy->unhealthy, success: anything->healthy). 'A target whose latest probe failed receives no new requests' is FALSE "
         "when the failed probe falls into a drain (F19: kernel-checked witness replayed every run).",
